@@ -566,13 +566,13 @@ static std::string exec_op(int a, const std::vector<std::string> &tk) {
       r = B(g_it[r1] == g_it[r2]);
     } else if (o == "l.trav") {
       for (auto it = g_lt[a]->begin(); it != g_lt[a]->end(); ++it)
-        r += " " + std::to_string(it->first.id) + "=" + std::to_string(val_get(it->second));
+        r += " " + pos_str(it) + " " + std::to_string(it->first.id) + "=" + std::to_string(val_get(it->second));
     } else if (o == "l.rtrav") {
       const LT &clt = *g_lt[a];
       auto it = clt.cend();
       while (it != clt.cbegin()) {
         --it;
-        r += " " + std::to_string(it->first.id) + "=" + std::to_string(val_get(it->second));
+        r += " " + pos_str(it) + " " + std::to_string(it->first.id) + "=" + std::to_string(val_get(it->second));
       }
     }
 #if H_KIND == 0
